@@ -30,6 +30,9 @@ def gen_doc(rng: Rng, depth=3, floats=False):
     def key():
         return rng.pick(ODD) if rng.chance(0.12) else rng.pick(SAFE_KEYS)
     d = {key(): val(depth - 1) for _ in range(rng.range(2, 6))}
+    # names that generated block parameters also use, so that shadowing and @root collisions occur
+    for nm in rng.shuffle(["it", "k", "v", "x", "name", "w"])[:rng.range(0, 2)]:
+        d[nm] = val(1)
     return d
 
 
@@ -99,6 +102,10 @@ class AG:
                 return {"a": "path", "ups": 0, "root": False, "segs": segs, "this": rng.chance(0.15)}
             if c == "root":
                 segs = self.segs_into(self.root, want, missing)
+                # a root field that has the same name as a block parameter in scope: @root must still mean the data
+                pnames = [n_ for s_ in scopes for n_ in s_.params if isinstance(self.root, dict) and n_ in self.root]
+                if pnames and want is None and rng.chance(0.5):
+                    segs = [rng.pick(pnames)]
                 if not segs:
                     continue
                 return {"a": "path", "ups": 0, "root": True, "segs": segs}
